@@ -412,9 +412,10 @@ class Coll(V):
     label: str = ""
     keyed: bool = False  # a dict used as an ordered set (dict.fromkeys, {}): item stores add the key
     stores: list = field(default_factory=list)  # keyed: (key of the key value, stored value) - look-ups of what was stored
+    store_guards: list = field(default_factory=list)  # parallel to `stores`: (condition of the store, the key is a constant)
 
     def snapshot(self) -> "Coll":
-        return Coll(list(self.parts), list(self.removals), self.label, self.keyed, list(self.stores))
+        return Coll(list(self.parts), list(self.removals), self.label, self.keyed, list(self.stores), list(self.store_guards))
 
 
 def root_elem(v: V) -> "Elem | None":
@@ -959,7 +960,10 @@ class Interp:
             return self.exec_while(fr, s)
         if isinstance(s, (ast.Continue, ast.Break)):
             if isinstance(s, ast.Break) and self.loops:
-                self.loops[-1].broken = True
+                # (a run for one known element of a written-out sequence is exact: what follows a conditional break runs under
+                # its negation, later runs under "no break so far" - nothing is lost; a generic element cannot say "the rest")
+                if not getattr(self.loops[-1], "exact_run", False):
+                    self.loops[-1].broken = True
                 fr.breaks.append(self.rel_guard(fr))
             return FALSE
         if isinstance(s, ast.Raise):
@@ -1257,6 +1261,8 @@ class Interp:
                 src.fr.env = saved_env
             return [(_Mapped(src, value), g, lp, ckey) for value, g, lp, ckey in self.iteration_plan(fr, inner_src, node)]
         c = self.as_coll(src)
+        if not c.parts:
+            return []  # nothing was ever put into it: no run at all (`chain((), parents)` of a top-level name)
         runs: list = []
         generic: list[Part] = []
         for p in c.parts:
@@ -1319,6 +1325,7 @@ class Interp:
                 self.loops = [*self.loops, lp]
             else:
                 marker = Loop(f"u{len(self.loops)}", Coll(), s, fr.fi)
+                marker.exact_run = self.concrete and ckey is None and not isinstance(value, _Mapped) or (self.concrete and ckey is None and isinstance(value, _Mapped) and value.index is not None)  # type: ignore[attr-defined]
                 self.loops = [*self.loops, marker]
             flags = self._flags_before(fr, s.body) if ckey is not None else {}
             try:
@@ -1722,6 +1729,7 @@ class Interp:
                     kv = self.ev(fr, target.slice)
                     self.coll_add(fr, recv, kv, stmt)
                     recv.stores.append((key(kv), v))
+                    recv.store_guards.append((self.guard(), conc(kv) is not _NOCONC))
                 else:
                     self.coll_add(fr, recv, v, stmt)
             elif isinstance(recv, DictV):
@@ -1747,6 +1755,9 @@ class Interp:
             for it in v.items:
                 self._add_value(c, it, TRUE, None, None)
             return c
+        if self.concrete and isinstance(v, Const) and isinstance(v.value, str) and len(v.value) <= 64:
+            # (concrete runs) a known string iterated character by character
+            return Coll([Part("lit", TRUE, items=(Const(ch),)) for ch in v.value], label=repr(v.value))
         if isinstance(v, Unknown) and self.concrete and "CONVERTED" in v.taint and "PARSED" not in v.taint and not hasattr(v, "_coll"):
             v._coll = Coll([Part("lit", TRUE, items=(ci,)) for ci in self.conc_imports], label=v.text)  # type: ignore[attr-defined]
         if isinstance(v, Unknown):
@@ -1891,6 +1902,8 @@ class Interp:
         their conditions (then positions are not known)."""
         if isinstance(v, TupleV):
             return list(v.items), TRUE
+        if isinstance(v, Const) and isinstance(v.value, str) and len(v.value) <= 64:
+            return [Const(ch) for ch in v.value], TRUE
         if not isinstance(v, Coll) or not v.parts or v.removals or v.keyed:
             return None
         g0 = v.parts[0].guard
@@ -2050,8 +2063,8 @@ class Interp:
         if isinstance(v, Unknown):
             if v.flag:
                 return atom("FLAG")
-            if v.patterns:
-                return atom("HAS")
+            if v.patterns or getattr(v, "_pattern_tuple", False):
+                return atom("HAS")  # (`() if patterns is None else patterns` is empty exactly when there are no patterns)
             if hasattr(v, "_len_of"):
                 return self.truth(v._len_of)
             return self.free(f"T[{v.text}]", v.taint)
@@ -2086,7 +2099,7 @@ class Interp:
             return TRUE
         if isinstance(v, AltV):
             return disj(conj([g, self.patterns_empty(x)]) for g, x in v.alts)
-        if isinstance(v, Unknown) and v.patterns:
+        if isinstance(v, Unknown) and (v.patterns or getattr(v, "_pattern_tuple", False)):
             return f_not(atom("HAS"))
         return FALSE if isinstance(v, (Coll, Obj, Opaque)) else self.free(f"EMPTY[{key(v)}]", taint_of(v))
 
@@ -2168,6 +2181,8 @@ class Interp:
                 f = self.truth(lv) if rv.value else f_not(self.truth(lv))
             elif isinstance(lv, Const) and isinstance(rv, Const):
                 f = TRUE if lv.value == rv.value else FALSE  # enum members / interned constants
+            elif any(isinstance(x, Const) and isinstance(x.value, str) and x.value.startswith("<object@") for x in (lv, rv)) and any(isinstance(x, (BoolV, Coll, TupleV, Obj, Fn, ClassRef)) for x in (lv, rv)):
+                f = FALSE  # a value computed by the pipeline is never the sentinel object
             elif lv is rv:
                 f = TRUE
             else:
@@ -2194,13 +2209,13 @@ class Interp:
             elif isinstance(rv, NoneV) or isinstance(lv, NoneV):
                 f = self.isnone(lv if isinstance(rv, NoneV) else rv)
             else:
-                ln = self._len_arg(fr, le)
+                ln = self._len_arg(fr, le, lv)
                 if ln is not None and isinstance(rv, Const) and rv.value == 0:
                     f = f_not(self.truth(ln))
                 else:
                     f = self.free("EQ[" + ",".join(sorted([key(lv), key(rv)])) + "]", self.cmp_taint(lv, rv))
             return f if isinstance(op, ast.Eq) else f_not(f)
-        ln = self._len_arg(fr, le)
+        ln = self._len_arg(fr, le, lv)
         if ln is not None and isinstance(rv, Const) and isinstance(rv.value, int):
             t = self.truth(ln)
             if (isinstance(op, ast.Gt) and rv.value == 0) or (isinstance(op, ast.GtE) and rv.value == 1):
@@ -2209,7 +2224,9 @@ class Interp:
                 return f_not(t)
         return self.free(f"CMP[{key(lv)} {type(op).__name__} {key(rv)}]", self.cmp_taint(lv, rv))
 
-    def _len_arg(self, fr: Frame, e: ast.expr) -> "V | None":
+    def _len_arg(self, fr: Frame, e: ast.expr, v: "V | None" = None) -> "V | None":
+        if isinstance(v, Unknown) and getattr(v, "_len_of", None) is not None:
+            return v._len_of  # type: ignore[attr-defined]  # a count held in a variable (`n = len(xs)` / `sum(1 for ..)`)
         if isinstance(e, ast.Call) and isinstance(e.func, ast.Name) and e.func.id == "len" and len(e.args) == 1 and "len" not in fr.env:
             return self.ev(fr, e.args[0])
         return None
@@ -2324,6 +2341,12 @@ class Interp:
                     ks.append(str(v.value))
             if all(isinstance(v, ast.Constant) or (isinstance(v, ast.FormattedValue) and v.conversion == -1 and v.format_spec is None and isinstance(conc(self.ev(fr, v.value)), str)) for v in e.values):
                 return Const("".join(str(v.value) if isinstance(v, ast.Constant) else conc(self.ev(fr, v.value)) for v in e.values))
+            # one of a few constant strings chosen under a condition (`f"_is_{mode}_import"`): one text per alternative
+            fvs = [v for v in e.values if isinstance(v, ast.FormattedValue)]
+            if len(fvs) == 1 and fvs[0].conversion == -1 and fvs[0].format_spec is None:
+                x = self.ev(fr, fvs[0].value)
+                if isinstance(x, AltV) and len(x.alts) <= 8 and all(isinstance(a_, Const) and isinstance(a_.value, str) for _g, a_ in x.alts):
+                    return self.mk_alt([(g_, Const("".join(str(v.value) if isinstance(v, ast.Constant) else a_.value for v in e.values))) for g_, a_ in x.alts])
             return Unknown("f'" + "".join(ks) + "'", t, False)
         if isinstance(e, ast.BinOp):
             a, b = self.ev(fr, e.left), self.ev(fr, e.right)
@@ -2370,6 +2393,9 @@ class Interp:
                 return v.items[e.slice.value]
             if isinstance(v, Coll) and v.keyed and not isinstance(e.slice, ast.Slice):
                 sl = self.ev(fr, e.slice)
+                hit = self._keyed_lookup(v, sl, Unknown(f"{key(v)}[{key(sl)}]", frozenset({"GAP"})))
+                if hit is not None:
+                    return hit
                 for k_, val in reversed(v.stores):
                     if k_ == key(sl):
                         return val  # what was stored under this very key (memo table)
@@ -2874,6 +2900,26 @@ class Interp:
             c = self.copy_of(a)
             c.keyed = name.endswith("fromkeys")
             return c
+        if name in ("itertools.accumulate", "accumulate") and args and self.concrete:
+            # (concrete runs) running totals of a sequence whose elements are all known, carried out step by step
+            seq = self._sequence_items(args[0])
+            fn_ = args[1] if len(args) > 1 else kwargs.get("func")
+            if seq is not None and (seq[1] == TRUE or seq[1] == self.guard() or self.sat(conj([self.guard(), seq[1]]))) and len(seq[0]) <= 32:
+                items_ = list(seq[0])
+                if "initial" in kwargs and not isinstance(kwargs["initial"], NoneV):
+                    items_ = [kwargs["initial"], *items_]
+                outs: list = []
+                acc_: "V | None" = None
+                for it_ in items_:
+                    if acc_ is None:
+                        acc_ = it_
+                    elif fn_ is None or isinstance(fn_, NoneV):
+                        ca_, cb_ = conc(acc_), conc(it_)
+                        acc_ = absv(ca_ + cb_) if ca_ is not _NOCONC and cb_ is not _NOCONC else Unknown("accumulate(..)", frozenset({"GAP"}))
+                    else:
+                        acc_ = self.call_value(fr, fn_, [acc_, it_], {}, e)
+                    outs.append(acc_)
+                return TupleV(outs)
         if name in ("itertools.chain", "chain"):
             out = Coll()
             for a in args:
@@ -2899,6 +2945,15 @@ class Interp:
                         return absv(out)
                 except Exception:  # noqa: BLE001
                     pass
+        if name == "sum" and len(args) == 1 and not kwargs and isinstance(args[0], Coll):
+            items_ = [it_ for p_ in args[0].parts if p_.kind == "lit" for it_ in p_.items]
+            if args[0].parts and all(p_.kind == "lit" and not p_.partial for p_ in args[0].parts) and all(isinstance(it_, Const) and isinstance(it_.value, (int, float)) and it_.value > 0 for it_ in items_):
+                # `sum(1 for x in xs if p(x))`: zero exactly when nothing is counted
+                u = Unknown(f"sum({key(args[0])})", taint_of(args[0]), False)
+                u._len_of = args[0]  # type: ignore[attr-defined]
+                return u
+        if name == "object" and not args and not kwargs:
+            return Const(f"<object@{fr.fi.module.name}:{getattr(e, 'lineno', 0)}:{getattr(e, 'col_offset', 0)}>")  # a sentinel: equal to itself only
         if name == "bool" and len(args) == 1:
             return BoolV(self.truth(args[0]))
         if name in ("dataclasses.replace", "replace") and len(args) == 1 and isinstance(args[0], Obj):
@@ -2922,6 +2977,19 @@ class Interp:
             return Unknown(f"str({key(a)})", t, False)
         if name in ("print", "logging.debug", "logging.info", "warnings.warn"):
             return NoneV()
+        if name == "getattr" and len(args) in (2, 3) and not kwargs:
+            obj_, nm = args[0], args[1]
+            if isinstance(nm, AltV) and all(isinstance(a_, Const) and isinstance(a_.value, str) for _g, a_ in nm.alts):
+                return self.mk_alt([(g_, self.call_builtin(fr, "getattr", [obj_, a_, *args[2:]], {}, e)) for g_, a_ in self.live(nm)])
+            if isinstance(nm, Const) and isinstance(nm.value, str):
+                if isinstance(obj_, (Obj, ClassRef, SuperRef)):
+                    known = isinstance(obj_, Obj) and (nm.value in obj_.fields or self.repo.lookup_method(obj_.cls, nm.value) is not None or any(nm.value in c_.class_attrs for c_ in self.repo.mro(obj_.cls)))
+                    if known or not isinstance(obj_, Obj):
+                        return self.attr_of(fr, obj_, nm.value)
+                    if len(args) == 3:
+                        return args[2]
+                elif isinstance(obj_, (Opaque, Elem, Importee, Anc, ConcImport)):
+                    return BoundAPI(obj_, nm.value)
         if name in ("functools.partial", "partial") and args:
             return PartialV(args[0], args[1:], dict(kwargs))
         if name in ("functools.lru_cache", "lru_cache", "functools.cache", "cache", "<memoising-wrapper>"):
@@ -2937,7 +3005,12 @@ class Interp:
             return self.call_value(fr, self.attr_of(fr, args[-1], args[0].value) if isinstance(args[-1], (Obj, ClassRef, AltV, SuperRef)) else BoundAPI(args[-1], args[0].value), list(args[1:-1]), kwargs, e)
         if name == "next" and len(args) == 2:
             # next(iterable, default): the default exactly when the iterable is empty
-            ne = self.nonempty(self.as_coll(args[0]))
+            c0 = self.as_coll(args[0])
+            ne = self.nonempty(c0)
+            consts = [it_ for p_ in c0.parts if p_.kind == "lit" for it_ in p_.items]
+            if c0.parts and all(p_.kind == "lit" and not p_.partial for p_ in c0.parts) and consts and all(isinstance(it_, Const) and type(it_.value) is type(consts[0].value) and it_.value == consts[0].value for it_ in consts):
+                # `next((True for x in xs if p(x)), False)`: every element is the same constant - the first one is that constant
+                return self.mk_alt([(ne, consts[0]), (f_not(ne), args[1])])
             return self.mk_alt([(ne, Unknown(f"next({key(args[0])})", self.value_taint(args[0]), False)), (f_not(ne), args[1])])
         if name == "map" and len(args) == 2:
             return MapV(args[0], args[1])
@@ -2952,6 +3025,7 @@ class Interp:
             c = self.copy_of(args[0])
             c.keyed = True
             c.stores = list(args[0].stores)
+            c.store_guards = list(args[0].store_guards)
             return c
         if name in ("dict", "collections.defaultdict", "defaultdict", "collections.OrderedDict", "OrderedDict", "collections.Counter", "Counter"):
             return DictV(f"{name}()@{e.lineno}", t | (frozenset({"GAP"}) if args else frozenset()))
@@ -3014,6 +3088,10 @@ class Interp:
         if len(args) < 3:
             self.note(f"{fr.fi.qualname}: reduce without initial value not modelled")
             return Unknown("reduce(..)", self._taints(args, {}) | {"GAP"})
+        if isinstance(args[2], BoolV) or (isinstance(args[2], Const) and isinstance(args[2].value, bool)):
+            folded = self._reduce_bool(fr, f, xs, args[2], e)
+            if folded is not None:
+                return folded
         acc = self.copy_of(args[2])
         n0 = len(acc.parts)
         first = list(acc.parts)
@@ -3043,6 +3121,36 @@ class Interp:
             self.note(f"{fr.fi.qualname}: reduce with a step function that does not hand back its (extended) accumulator is not modelled")
             return Unknown("reduce(..)", self._taints(args, {}) | {"GAP"})
         return acc
+
+    def _reduce_bool(self, fr: Frame, f: V, xs: V, init: V, e: ast.Call) -> "V | None":
+        """reduce(step, xs, <truth value>) with a monotone step: `acc or p(x)` (true once some element passes) or `acc and p(x)`
+        (true while every element passes).  Which of the two is read off the step itself: step(True, x) is true / step(False, x)
+        is false whatever x.  None: neither."""
+        acc = self.truth(init)
+        for value, g, lp, ckey in self.iteration_plan(fr, xs, e):
+            self.frames.append(g)
+            saved = self.loops
+            self.loops = [*self.loops, lp if lp is not None else Loop(f"u{len(self.loops)}", Coll(), e, fr.fi)]
+            try:
+                el = self.loop_value(fr, value, lp, e)
+                cond = self.take_run_conds()
+                self.frames[-1] = conj([self.frames[-1], cond])
+                t_true = self.truth(self.call_value(fr, f, [Const(True), el], {}, e))
+                t_false = self.truth(self.call_value(fr, f, [Const(False), el], {}, e))
+                here = conj([self.simplify_under(g, conj(self.frames[:-1])), cond])
+            finally:
+                self.loops[-1].active = False
+                self.loops = saved
+                self.frames.pop()
+            if t_true == TRUE:
+                step = conj([here, t_false])
+                acc = disj([acc, self.exists(step, ckey) if ckey is not None else step])
+            elif t_false == FALSE:
+                bad = conj([here, f_not(t_true)])
+                acc = conj([acc, f_not(self.exists(bad, ckey) if ckey is not None else bad)])
+            else:
+                return None
+        return BoolV(acc)
 
     def builtin_filter(self, fr: Frame, pred: V, src: V, e: ast.Call, keep: bool) -> V:
         """filter(pred, xs) / filterfalse: like `[x for x in xs if pred(x)]` (generic element, unrolled per-element values)."""
@@ -3177,21 +3285,52 @@ class Interp:
             return Unknown(f"{key(recv)}.{attr}(..)", t | {"GAP"})
         return Unknown(f"{key(recv)}.{attr}(..)", t | {"GAP"})
 
+    def _keyed_lookup(self, c: Coll, k: V, default: "V | None") -> "V | None":
+        """(concrete runs) What a table holds under a constant key when every store into it was followed and used a constant key:
+        the value of the last store whose condition holds, else `default`.  None: not that simple (generic keys, partial parts)."""
+        if not self.concrete or not c.keyed or conc(k) is _NOCONC or len(c.stores) != len(c.store_guards):
+            return None
+        if any(p.partial or p.kind != "lit" for p in c.parts) or any(not is_c for _g, is_c in c.store_guards) or c.removals:
+            return None
+        kk = key(k)
+        alts: list = []
+        rest: Formula = TRUE
+        for (k_, val), (g, _c) in zip(reversed(c.stores), reversed(c.store_guards)):
+            if k_ != kk:
+                continue
+            alts.append((conj([rest, g]), val))
+            rest = conj([rest, f_not(g)])
+        if default is None:
+            return Unknown("<lookup>")  # (only asked whether the lookup is exact)
+        alts.append((rest, default))
+        return self.mk_alt(alts)
+
     def coll_method(self, fr: Frame, c: Coll, attr: str, args: list, kwargs: dict, e: ast.Call) -> V:
         if attr in ("append", "add", "appendleft") and args:
             self.coll_add(fr, c, args[0], e)
             return NoneV()
         if attr == "setdefault" and args and c.keyed:
+            before = self._keyed_lookup(c, args[0], None)
+            absent = f_not(self.member(args[0], c)) if before is not None else TRUE
             self.coll_add(fr, c, args[0], e)
             if len(args) > 1:
                 c.stores.append((key(args[0]), args[1]))
+                c.store_guards.append((conj([self.guard(), absent]), conc(args[0]) is not _NOCONC))
+                if before is not None:
+                    return self._keyed_lookup(c, args[0], args[1])  # what was there, else what was just stored
                 return args[1]
             return NoneV()
         if attr == "get" and args and c.keyed:
+            hit = self._keyed_lookup(c, args[0], args[1] if len(args) > 1 else NoneV())
+            if hit is not None:
+                return hit
             for k_, val in reversed(c.stores):
                 if k_ == key(args[0]):
                     # stored before (by this or an earlier iteration of the same code) or missing
                     return self.mk_alt([(self.member(args[0], c), val), (f_not(self.member(args[0], c)), args[1] if len(args) > 1 else NoneV())])
+            if self.concrete and conc(args[0]) is not _NOCONC and not any(p.partial or p.kind != "lit" for p in c.parts) and self.member(args[0], c) == FALSE:
+                # (concrete runs) every store into the table was followed and none used this constant key: missing
+                return args[1] if len(args) > 1 else NoneV()
             return Unknown(f"{key(c)}.get(..)", self.value_taint(c) | {"GAP"})
         if attr == "insert" and len(args) == 2:
             self.coll_add(fr, c, args[1], e)
